@@ -178,6 +178,26 @@ theorem handleLRem_np (c : Ctx) (cmd : List Bytes) : (handleLRem c cmd).NoPanic 
 theorem handlePush_np (l : Bool) (c : Ctx) (cmd : List Bytes) : (handlePush l c cmd).NoPanic := by unfold handlePush; np
 theorem handlePop_np (c : Ctx) (cmd : List Bytes) : (handlePop c cmd).NoPanic := by unfold handlePop; np
 
+/-! ### LPUSH / RPUSH creating a list: one write -/
+
+theorem pushName_facts :
+    isAscii (b "lpush") = true ∧ isAscii (b "rpush") = true ∧
+    toLower (b "lpush") = b "lpush" ∧ toLower (b "rpush") = b "rpush" ∧
+    ¬ (b "lpush" = b "lpushx") ∧ ¬ (b "rpush" = b "rpushx") := by decide
+
+/-- **LPUSH / RPUSH on a key that is not there make exactly one SetValues call, with the whole list** — in every
+    configuration: the state after the command is the state after that one write, and the command answers the
+    number of elements if the write was admitted, "max memory reached" if it was refused. -/
+theorem push_absent_run (left : Bool) (c : Ctx) (s : State) (k e0 : Bytes) (es : List Bytes)
+    (h : s.lookup c.db k = none) :
+    (handlePush left c ((if left then b "lpush" else b "rpush") :: k :: e0 :: es)).run c s =
+      ((setValues c s [(k, .list (e0 :: es))]).1,
+       if (setValues c s [(k, .list (e0 :: es))]).2 then .done (.ok (intReply ((e0 :: es).length : Nat)))
+       else .done (.err maxMemErr)) := by
+  have hlen : ¬ (es.length + 1 + 1 + 1 < 3) := by omega
+  cases hs : (setValues c s [(k, .list (e0 :: es))]).2 <;> cases left <;>
+    simp [handlePush, hlen, pushName_facts, keysExist_single, h, setOrErr, hs]
+
 /-- LRANGE: the index arithmetic never leaves the list (`lrangePure_eq`) -/
 theorem handleLRange_np (c : Ctx) (cmd : List Bytes) : (handleLRange c cmd).NoPanic := by
   unfold handleLRange; np
